@@ -24,6 +24,8 @@ TASK_LIMIT_S = {"quick": 240, "thorough": 3000}
 TOKENS = [b"HTTP/1.1", b" ", b"101", b"301", b"404", b"abc", b":", b"\r\n", b"\n", b"x", b"\xff", b"Location", b"Content-Length",
           b"99999999999", b"-1", b"ws://h/", b"http://h/"]
 ENDINGS = ["eof", "timeout", "reset"]
+# further errors of the transport itself (TLS layer / kernel), with the argument shapes the real modules use: (errno, text)
+MORE_ENDINGS = ["ssl-eof", "ssl-badmac", "ssl-zero-return", "etimedout", "ehostunreach"]
 
 
 def bounds(tier):
@@ -287,6 +289,10 @@ def fr_case(stream, ending, api, one_byte=False, check_values=True):
                 exp[-1] = ("exc", "WebSocketTimeoutException")
             elif ending == "reset":
                 exp[-1] = ("exc", "ConnectionResetError")
+            elif ending in MORE_ENDINGS:
+                # which acceptable exception class reports the transport's error is not specified (classify_exc has already vetted it)
+                if obs and obs[-1][0] == "exc" and len(obs) == len(exp):
+                    exp[-1] = obs[-1]
         dontcare = any(f.opcode == R.CLOSE and len(f.payload) >= 2 and R.close_code_verdict((f.payload[0] << 8) | f.payload[1]) == "dontcare"
                        for f in R.decode_all(stream)[0])
         if not dontcare and obs != exp[:len(obs)] and obs != exp:
@@ -405,8 +411,8 @@ def run_task(desc):
         specials += [b"\r\n\r\n", b"\n\n", b"HTTP/1.1\r\n\r\n", b"HTTP/1.1 \r\n\r\n", b" \r\n\r\n", b"\xff\xff\r\n\r\n", b"HTTP/1.1 101\r\n\r\n",
                      b"HTTP/1.1 101 OK\r\n" * 3 + b"\r\n", b"A" * 5000 + b"\r\n\r\n", b"HTTP/1.1 301 Moved\r\n\r\n"]
         for s in specials:
-            for ending in ENDINGS:
-                for rl in (None, 0):
+            for ending in ENDINGS + MORE_ENDINGS:
+                for rl in ((None, 0) if ending in ENDINGS else (None,)):
                     n += 1
                     rec(guarded(hs_case, s, ending, rl), {"case": "hs", "resp": s, "ending": ending, "rl": rl})
         # metamorphic read-size check on the declared body length of an error response
@@ -552,7 +558,7 @@ def run_task(desc):
                 if k == 3 and (rest[0] + rest[1] + desc["first"]) % 3:
                     continue  # a third of the triples (fixed residue), all singles and pairs
                 s = VF[desc["first"]] + b"".join(VF[i] for i in rest)
-                for ending in ENDINGS[:2]:
+                for ending in (ENDINGS[:2] if k == 3 else ENDINGS + MORE_ENDINGS):
                     for api in ("recv", "recv_data_frame", "recv_frame", "close"):
                         n += 1
                         rec(guarded(fr_case, s, ending, api), {"case": "fr", "stream": s, "ending": ending, "api": api, "one": False})
